@@ -163,6 +163,8 @@ type History struct {
 	View  *View
 	// KMMon is the key manager monitor of the history (key manager support; nil without a key manager).
 	KMMon *KeyManagerMonitor
+	// VRFMon is the VRF monitor of the history (VRF beacon support; nil without the VRF backend).
+	VRFMon *VRFMonitor
 
 	Height  int64
 	Time    time.Time
@@ -230,8 +232,22 @@ func NewHistory(cfg HistoryConfig, mons ...Monitor) (*History, error) {
 			mons = append(append([]Monitor(nil), mons...), kmMon)
 		}
 	}
+	// VRF beacon support: every history on the VRF backend has a VRF monitor (for the counters; C14
+	// passes its own, with a reporter).
+	var vrfMon *VRFMonitor
+	if sc.IsVRF() {
+		for _, m := range mons {
+			if k, ok := m.(*VRFMonitor); ok {
+				vrfMon = k
+			}
+		}
+		if vrfMon == nil {
+			vrfMon = &VRFMonitor{}
+			mons = append(append([]Monitor(nil), mons...), vrfMon)
+		}
+	}
 	h := &History{
-		Cfg: cfg, Sc: sc, Mons: mons, KMMon: kmMon,
+		Cfg: cfg, Sc: sc, Mons: mons, KMMon: kmMon, VRFMon: vrfMon,
 		Rng:      rand.New(rand.NewPCG(cfg.Seed, 0x41157031)),
 		ValSets:  map[int64]ValSet{},
 		PathUsed: map[Path]int{},
